@@ -383,6 +383,8 @@ class WalletWorld:
                 # transaction with a relative-locktime sequence into version 2: what reaches the wallet is not the
                 # chain's transaction any more, a matter of the clients, not of the ledger)
                 shape['sequence'] = 0
+        if self.focus == 'C08' and ch.coin('in_legacy', 0.25):
+            shape['legacy'] = True      # the sender spends a legacy (P2PKH) output: no witness data in the transaction
         return shape
 
     def op_mine(self):
